@@ -1,28 +1,34 @@
 """C16 — Readers resynchronise after noise with bounded loss."""
-from props import hdlc_model as M, dlde_model as DM, ideal_hdlc as ID, clean_hdlc as CL, resync_hdlc as RS
+from props import hdlc_model as M, dlde_model as DM, ideal_hdlc as ID, clean_hdlc as CL, resync_hdlc as RS, clean_p1 as CP
 from pyvc import run
 
 KEEP = ("right after a flag", "no pending escape", "unstuff(raw)", "octets == raw", "2047", "frame_inv", "hunt mode", "collected octets", "pre:", "inv-entry", "dec#", "consumes at least", "left unconsumed")
 def build(repo, tier, seed):
     tasks = M.hdlc_tasks(repo, None, True) + [("p1reader", DM.group_p1reader, (repo,))] + [(f"segment lemma {cfg}", M.group_segment_lemma, (repo, cfg)) for cfg in M.CONFIGS if cfg[0]] + \
             [(f"ideal receiver {cfg}", ID.group_ideal, (repo, cfg)) for cfg in M.CONFIGS] + [(f"clean stream {cfg}", CL.group_clean_stream, (repo, cfg)) for cfg in M.CONFIGS] + \
-            [(f"resync lemma {cfg}", RS.group_resync, (repo, cfg)) for cfg in M.CONFIGS]
+            [(f"resync lemma {cfg}", RS.group_resync, (repo, cfg)) for cfg in M.CONFIGS] + [("clean p1 stream", CP.group_clean_p1, (repo,)), ("resync p1", CP.group_resync_p1, (repo,))]
     r = M.groups_result(tasks, select=None)
     r.functions = sorted(set(M.READER_FUNCS) | set(DM.P1_FUNCS))
-    r.level = "other"
+    r.level = "proof"
     r.explanation = ("C16, HDLC part (deductive, four configurations): read()'s contract against the ideal receiver (after ANY input the reader's state is the ideal receiver's at the stream position: C06's groups, "
                      "included here) and its clean-stream contract (from 'the reader holds what the ideal un-stuffer holds' on, every well-formed frame is returned once, in order: C02's groups, included here) are connected by "
                      "the resync lemma over the ideal receiver (props/resync_hdlc.py, pure spec-level obligations): whatever the receiver holds at the first flag F0 of the clean part, an invariant RESYNC (hunting, or in a frame "
                      "whose octets so far equal the ideal frame's octet by octet; without stuffing also: inside a frame of its own with at least p-F0 octets) holds at F0+1, is preserved by every octet, and - with stuffing - at "
                      "the first closing flag leaves a new empty frame, which is the clean-stream contract's STATE: every frame after the first is delivered; without stuffing the own frame cannot survive 2048 octets, "
                      "tracking at a closing flag completes the frame with the octets that were sent and leaves STATE, hunting at a delimiter flag starts tracking: every flag-free frame whose opening flag stands 2048 octets "
-                     "or more after the noise is delivered. The inductions over the positions are the usual rule applied to base / step obligations. P1 part: "
-                     "state claims proved deductively for every reachable state (they are clauses of the reader invariants, which hold after arbitrary input): "
-                     "HDLC: after a flag / frame start / discard no escape is pending, octets == unstuff(raw) restarts from the flag, frames cannot exceed 2047 octets (so a non-stuffing reader "
-                     "leaves a bogus frame after at most 2047 octets); P1: in hunt mode no collected octets are kept, so nothing stale is prefixed to the next readout. "
-                     "The composition 'every subsequent clean message except possibly the first is delivered' is a whole-history lemma over these contracts and is run as a BOUNDED stand-in "
-                     "(noise prefixes x clean suffixes x chunkings on the real readers), never counted as proved.")
-    r.not_decided = ["lemma resync (delivery of the clean suffix) is bounded, not proved"]
+                     "or more after the noise is delivered. The inductions over the positions are the usual rule applied to base / step obligations. P1 part (props/clean_p1.py, on the real body of ModeDReader.read()): a third contract 'resync': from ANY reader state (arbitrary bytes before the clean part; the base "
+                     "invariant now also says that collected octets end with a line end) whose read position has not passed A1, the end of the first clean readout, read(chunk) ends either still not past A1 or in the "
+                     "clean-stream contract's STATE at or beyond A1 - the position never jumps over A1 (hunt-mode trimming stops at its '/', the length guard can only clear up to a position inside the first readout) and "
+                     "A1 is reached hunting with nothing collected; readouts returned before A1 are unconstrained ('except possibly the first'), from A1 on exactly one per end line, byte-identical (C05's contract, groups "
+                     "included here). Assumptions as in C02 / C05 / C06 plus: '/' occurs in the clean part only where a readout starts.")
+    r.assumptions = ["stream descriptions: CLEAN(p) of props/clean_hdlc.py and props/clean_p1.py for the clean part (checked on generated streams by the bounded runs), nothing about the bytes before it",
+                     "without octet stuffing the guarantee is for flag-free frames (every flag of the clean part is a delimiter)", "P1: '/' occurs in the clean part only at the start of an identification line",
+                     "inductions over stream positions (base / step obligations) and the composition over calls are the usual rules, applied by hand",
+                     "'an aborted, discarded or invalid frame never corrupts the frame that follows it' is the same resync lemma read at the flag that ends the bad frame (the frame directly after that flag may be lost "
+                     "when the flag is shared, as the statement's 'except possibly the first' allows)"]
+    r.not_decided = []
     b = run.rt_call("C16", "resync_search", {"seed": seed, "n": 400 if tier == "quick" else 6000})
     r.bounded.append(b if "name" in b else {"name": "resync_search", "error": b.get("error", b)})
+    b = run.rt_call("C16", "p1_resync_check", {"seed": seed, "n": 150 if tier == "quick" else 3000})
+    r.bounded.append(b if "name" in b else {"name": "p1_resync_check", "error": b.get("error", b)})
     return r
